@@ -229,6 +229,68 @@ Proof.
   rewrite (lex_cont _ _ _ E). cbn [app fst snd]. destruct (lex s); reflexivity.
 Qed.
 
+
+(* ---------- %union { ... } and %{ ... %} ---------- *)
+(* the body of %union as the text after the opening brace, closing brace included; the brace must be followed by white space *)
+Definition wf_union (bc : list ascii) : bool := wf_action bc && match bc with d :: _ => is_ws d | [] => false end.
+Lemma lex_union bc s : wf_union bc = true ->
+  lex ("%" :: w_union ++ " " :: "{" :: bc ++ s) = (mkTok LxUnion (removelast bc) s :: fst (lex s), snd (lex s)).
+Proof.
+  intro H. unfold wf_union in H. apply andb_true_iff in H. destruct H as [Ha Hd]. apply wf_action_spec in Ha.
+  destruct bc as [|d bc']; [discriminate|].
+  assert (E : lex_step [] ("%" :: w_union ++ " " :: "{" :: (d :: bc') ++ s) = Cont [mkTok LxUnion (removelast (d :: bc')) s] [] s).
+  { unfold lex_step, w_union. cbn -[braces removelast is_ws]. unfold union_body, accept_word. cbn -[braces removelast is_ws]. rewrite Hd.
+    change (d :: bc' ++ s) with ((d :: bc') ++ s). rewrite (braces_app (d :: bc') 1 s (d :: bc') Ha). reflexivity. }
+  rewrite (lex_cont _ _ _ E). cbn [app fst snd]. destruct (lex s); reflexivity.
+Qed.
+
+(* the prologue text: scanning it, followed by the terminator, stops exactly at the terminator *)
+Definition code_ok (body : list ascii) : bool :=
+  match code_end (body ++ ["%"; "}"]) with
+  | Some (b, []) => if list_eq_dec ascii_dec b body then true else false
+  | _ => false
+  end.
+Definition ws_or_end (s : list ascii) : Prop := match s with d :: _ => is_ws d = true | [] => True end.
+
+Lemma code_end_more : forall body d r, code_end (body ++ ["%"; "}"]) = Some (body, []) -> is_ws d = true ->
+  code_end (body ++ "%" :: "}" :: d :: r) = Some (body, d :: r).
+Proof.
+  induction body as [|c b IH]; intros d r H Hd.
+  - cbn. rewrite Hd. reflexivity.
+  - cbn [app] in *. cbn [code_end] in H.
+    (* the test at c must fail in the old text, otherwise the first component would be empty *)
+    destruct (if Ascii.eqb c "%" then match b ++ ["%"; "}"] with
+              | e :: r0 => if Ascii.eqb e "}" then match r0 with d0 :: _ => if is_ws d0 then Some r0 else None | [] => Some r0 end else None
+              | [] => None end else None) as [r1|] eqn:Et; [discriminate|].
+    destruct (code_end (b ++ ["%"; "}"])) as [[a0 r0]|] eqn:Eb; [|discriminate].
+    inversion H; subst a0 r0. specialize (IH d r eq_refl Hd).
+    cbn [code_end]. rewrite IH.
+    assert (Et' : (if Ascii.eqb c "%" then match b ++ "%" :: "}" :: d :: r with
+              | e :: r0 => if Ascii.eqb e "}" then match r0 with d0 :: _ => if is_ws d0 then Some r0 else None | [] => Some r0 end else None
+              | [] => None end else None) = None).
+    { destruct (Ascii.eqb c "%"); [|reflexivity].
+      destruct b as [|e [|e2 b2]]; cbn [app] in *.
+      - reflexivity.
+      - destruct (Ascii.eqb e "}"); [|reflexivity]. cbn in Et |- *. exact Et.
+      - destruct (Ascii.eqb e "}"); [|reflexivity]. destruct (is_ws e2); [discriminate | reflexivity]. }
+    rewrite Et'. reflexivity.
+Qed.
+
+Lemma lex_code body s : code_ok body = true -> ws_or_end s ->
+  lex ("%" :: "{" :: body ++ "%" :: "}" :: s) = (mkTok LxCodeQuote body s :: fst (lex s), snd (lex s)).
+Proof.
+  intros H Hs. unfold code_ok in H.
+  destruct (code_end (body ++ ["%"; "}"])) as [[b [|x l]]|] eqn:Ec; try discriminate.
+  destruct (list_eq_dec ascii_dec b body) as [->|]; [|discriminate].
+  assert (Ece : code_end (body ++ "%" :: "}" :: s) = Some (body, s)).
+  { destruct s as [|d r]; [exact Ec | apply code_end_more; [exact Ec | exact Hs]]. }
+  assert (E : lex_step [] ("%" :: "{" :: body ++ "%" :: "}" :: s) = Cont [mkTok LxCodeQuote body s] [] s).
+  { unfold lex_step. change (has_prefix ["/"; "/"] ("%" :: "{" :: body ++ "%" :: "}" :: s)) with false.
+    change (has_prefix ["/"; "*"] ("%" :: "{" :: body ++ "%" :: "}" :: s)) with false.
+    cbn -[code_end]. rewrite Ece. reflexivity. }
+  rewrite (lex_cont _ _ _ E). cbn [app fst snd]. destruct (lex s); reflexivity.
+Qed.
+
 (* ---------- documents ---------- *)
 Inductive sepr := SWs (c : ascii) | SLine (body : list ascii) | SBlock (body : list ascii).
 Definition wf_sep (x : sepr) : bool :=
@@ -247,13 +309,17 @@ Definition render_seps (l : list sepr) : list ascii := flat_map render_sep l.
 
 Inductive ltoken :=
 | TkId (c : ascii) (cs : list ascii) | TkNum (c : ascii) (cs : list ascii) | TkPunct (p : punct) | TkSect
-| TkChar (d : ascii) | TkAct (bc : list ascii) | TkDir (k : dirkw).
+| TkChar (d : ascii) | TkAct (bc : list ascii) | TkDir (k : dirkw)
+| TkUnion (bc : list ascii)       (* %union {bc : the text after the opening brace, closing brace included *)
+| TkCode (body : list ascii).     (* %{body%} *)
 Definition wf_tok (t : ltoken) : bool :=
   match t with
   | TkId c cs => (is_letter c || Ascii.eqb c "_") && forallb is_idch cs
   | TkNum c cs => is_digit c && forallb is_digit cs
   | TkChar d => negb (Ascii.eqb d bslash)
   | TkAct bc => wf_action bc
+  | TkUnion bc => wf_union bc
+  | TkCode body => code_ok body
   | _ => true
   end.
 Definition render_tok (t : ltoken) : list ascii :=
@@ -264,18 +330,21 @@ Definition render_tok (t : ltoken) : list ascii :=
   | TkChar d => [quote; d; quote]
   | TkAct bc => "{" :: bc
   | TkDir k => "%" :: dir_word k
+  | TkUnion bc => "%" :: w_union ++ " " :: "{" :: bc
+  | TkCode body => "%" :: "{" :: body ++ ["%"; "}"]
   end.
 Definition tok_kind (t : ltoken) : lkind :=
   match t with
   | TkId _ _ => LxIdentifier | TkNum _ _ => LxNumber | TkPunct p => punct_kind p | TkSect => LxSection
   | TkChar _ => LxChar | TkAct _ => LxActionQuote | TkDir k => dir_kind k
+  | TkUnion _ => LxUnion | TkCode _ => LxCodeQuote
   end.
 Definition tok_value (t : ltoken) : list ascii :=
-  match t with TkChar d => [d] | _ => render_tok t end.
+  match t with TkChar d => [d] | TkUnion bc => removelast bc | TkCode body => body | _ => render_tok t end.
 (* what may follow a token without any separator: after an identifier, a number or a directive keyword no
    identifier character (a separator or a token that starts with another character is fine) *)
 Definition gap_ok (t : ltoken) (rest : list ascii) : Prop :=
-  match t with TkId _ _ | TkNum _ _ | TkDir _ => next_not is_idch rest | _ => True end.
+  match t with TkId _ _ | TkNum _ _ | TkDir _ => next_not is_idch rest | TkCode _ => ws_or_end rest | _ => True end.
 
 Definition doc := list (list sepr * ltoken).
 Fixpoint render (d : doc) (trail : list sepr) : list ascii :=
@@ -317,7 +386,7 @@ Qed.
 Lemma lex_token t s : wf_tok t = true -> gap_ok t s ->
   lex (render_tok t ++ s) = (mkTok (tok_kind t) (tok_value t) s :: fst (lex s), snd (lex s)).
 Proof.
-  intros Hw Hg. destruct t as [c cs|c cs|p| |d|bc|k]; cbn [render_tok tok_kind tok_value wf_tok gap_ok app] in *.
+  intros Hw Hg. destruct t as [c cs|c cs|p| |d|bc|k|bc|body]; cbn [render_tok tok_kind tok_value wf_tok gap_ok app] in *.
   - apply andb_true_iff in Hw. destruct Hw as [Hc Hcs]. apply lex_ident; assumption.
   - apply andb_true_iff in Hw. destruct Hw as [Hc Hcs]. apply lex_number; [assumption|assumption|apply next_not_digit; exact Hg].
   - apply lex_punct.
@@ -325,6 +394,8 @@ Proof.
   - apply negb_true_iff in Hw. apply lex_char. exact Hw.
   - apply lex_action. exact Hw.
   - apply lex_directive. exact Hg.
+  - rewrite <- !app_assoc. cbn [app]. apply lex_union. exact Hw.
+  - rewrite <- app_assoc. cbn [app]. apply lex_code; assumption.
 Qed.
 
 (* C10, token level: whatever the layout, the lexer delivers exactly the tokens that were written, then EOF *)
